@@ -140,6 +140,13 @@ def programs_arrays(tier):
         F("q", T_u(32), (0, 32), array=(3, 48)),   # stride > width, last ends at 127
         F("s", T_i(8), (32, 8), array=(2, 48)),
     ])], props=("C03", "C05", "C16")))
+    progs.append(Program("ar128u", structs=[S("ar128u", 128, [
+        F("sample", T_u(12), (4, 12), array=(8, 16)),          # arbitrary-int elements: the first ends below bit 64, the last four lie above it
+    ])], props=("C03", "C16", "C13")))
+    progs.append(Program("ar100u", structs=[S("ar100u", 100, [
+        F("n", T_u(5), (3, 5), array=(12, 8)),                 # 3..=7, ..., 91..=95 in a u100 (storage u128)
+        F("t", T_bool(), (99, 1)),
+    ])], props=("C03", "C11", "C16")))
     progs.append(Program("ar24", structs=[S("ar24", 24, [
         F("x", T_u(4), (0, 4), array=(6, None)),   # fills u24 exactly, K maximal
     ])], props=("C03", "C11", "C16", "C13")))
